@@ -295,6 +295,11 @@ func init() {
 			}
 		}
 	}
+	// entries handed to the core with a caller of their own (as bridges and forwarding layers do): the
+	// same program counter value with this probe's file and line
+	for c := range cfgs {
+		catalogue = append(catalogue, probe{idx: len(catalogue), cfg: c, fs: 0, name: cfgs[c].name + "/entry-with-given-caller", special: "given-caller"})
+	}
 	// probes on long-lived loggers
 	for c := range cfgs {
 		for _, f := range []int{0, 1, 2, 3, 6, 8} {
@@ -306,6 +311,9 @@ func init() {
 		}
 	}
 }
+
+// syntheticPCs are program-counter values carried by entries whose caller is given by the program.
+var syntheticPCs = []uintptr{0x1234, 0x401000, 1}
 
 //go:noinline
 func probeBody(p probe, l *zap.Logger, pl *persLogger) (panicked string) {
@@ -327,6 +335,14 @@ func probeBody(p probe, l *zap.Logger, pl *persLogger) (panicked string) {
 	fd := fieldSets[p.fs]
 	msg := "probe " + p.name
 	switch p.special {
+	case "given-caller":
+		for k, pc := range syntheticPCs {
+			ent := zapcore.Entry{Level: zapcore.InfoLevel, Time: fixedTime, Message: msg, Caller: zapcore.NewEntryCaller(pc, fmt.Sprintf("/srv/app/probe%d/handler.go", k), 70+k, true)}
+			if ce := l.Core().Check(ent, nil); ce != nil {
+				ce.Write(zap.Int("k", k))
+			}
+		}
+		return
 	case "lazy-sugar":
 		pl.lazy.Infow(msg, "k", 1)
 		return
@@ -581,6 +597,15 @@ var histOps = []histOp{
 		c1.Info("child one")
 		c2.Error("child two", zap.Error(errors.New("e")))
 		l.WithLazy(zap.Int("lz", 1)).Named("lz").Debug("lazy child")
+	}},
+	{"entries-with-given-callers", func(h *histEnv) {
+		// the same program-counter values as the probe uses, with other files and lines
+		for k, pc := range syntheticPCs {
+			ent := zapcore.Entry{Level: zapcore.WarnLevel, Time: fixedTime, Message: "history entry with a caller of its own", Caller: zapcore.NewEntryCaller(pc, fmt.Sprintf("/opt/history/other%d.go", h.g.Intn(3)), 10+k, true)}
+			if ce := h.lg().Core().Check(ent, nil); ce != nil {
+				ce.Write()
+			}
+		}
 	}},
 	{"long-lived-logger:child-from-the-kept-field-slice", func(h *histEnv) {
 		pl := rng.Pick(h.g, h.pers)
